@@ -1,6 +1,7 @@
 import Cherab.Props.C01Table
 import Cherab.Props.C01Notifier
 import Cherab.Props.C01Subscription
+import Cherab.Props.C01Reads
 open Cherab.Props.C01
 #print axioms Inval.inv_run
 #print axioms Inval.no_stale
@@ -26,3 +27,10 @@ open Cherab.Props.C01
 #print axioms no_setter_problems
 #print axioms setter_table_nonempty
 #print axioms no_stale_subscription
+#print axioms coveredBy_of_rows_subset
+#print axioms no_read_problems
+#print axioms reads_table_nonempty
+#print axioms reads_subset_deps
+#print axioms reads_covered
+#print axioms reads_covered_via_deps
+#print axioms no_stale_reads
